@@ -31,7 +31,9 @@ META = {
         "{1,2} {2,} {,2} {0,1} *?, groups, unions) with cost <= K, plain (and anchored "
         "for the basic grammar up to K-1); "
         "(c) every single-character deletion/insertion/replacement of the grammar "
-        "patterns of cost <= K-1..2; de-duplicated by pattern text; non-trivial = the "
+        "patterns of cost <= K-1..2; (d) every two-character escape \\c for c in "
+        "printable ASCII (and the numeric escapes starting with each hex digit) in 14 "
+        "literal / set / range contexts; de-duplicated by pattern text; non-trivial = the "
         "parser accepts the pattern and it matches >= 1 and rejects >= 1 probe"
     ),
     "bounds": {
@@ -84,7 +86,36 @@ def shards(tier: str) -> List[Any]:
         result.append(("grammar", tier, index))
     for index in range(N_GRAMMAR_SHARDS):
         result.append(("edits", tier, index))
+    for code in range(0x20, 0x7F):
+        result.append(("escapes", tier, code))
     return result
+
+
+ESCAPE_PROBE_EXTRA = ("a", "\t", "\n", "\x0b", "\x0c", "\r", "\\", " ")
+
+
+def escape_patterns(code: int) -> Iterator[str]:
+    """Every use of the two-character escape of ``chr(code)`` and its neighbours."""
+    ch = chr(code)
+    esc = "\\" + ch
+    contexts = [
+        "{e}", "a{e}", "{e}*", "({e})", "{e}|a", "^{e}$",
+        "[{e}]", "[^{e}]", "[a{e}]", "[{e}a]", "[{e}-~]", "[\\t-{e}]", "[ -{e}]", "[{e}-{e}]",
+    ]
+    seen = set()  # type: Set[str]
+    for context in contexts:
+        pattern = context.replace("{e}", esc)
+        if pattern not in seen:
+            seen.add(pattern)
+            yield pattern
+    if ch in "0123456789abcdefABCDEF":
+        # numeric escapes which start with this hexadecimal digit
+        for template in ("\\x{d}b", "\\x0{d}", "\\u00{d}b", "\\u000{d}", "\\U0001f60{d}", "\\U0000000{d}"):
+            for context in ("{e}", "[{e}]", "[^{e}]", "[\\x01-{e}]"):
+                pattern = context.replace("{e}", template.replace("{d}", ch))
+                if pattern not in seen:
+                    seen.add(pattern)
+                    yield pattern
 
 
 def _stable_bucket(text: str, buckets: int) -> int:
@@ -144,6 +175,8 @@ def patterns_of_shard(shard: Any) -> Iterator[str]:
         for pattern in grammar_patterns(tier):
             if _stable_bucket(pattern, N_GRAMMAR_SHARDS) == index:
                 yield pattern
+    elif kind == "escapes":
+        yield from escape_patterns(shard[2])
     else:
         _, tier, index = shard
         yield from edit_patterns(tier, index)
@@ -185,6 +218,12 @@ def _probe_alphabet(pattern: str) -> Tuple[str, ...]:
     for ch in ("c", "\n"):
         if ch not in chars:
             chars.append(ch)
+    if "\\" in pattern:
+        # escapes denote characters which do not occur literally in the pattern
+        for ch in ("\t", "\x0b", "\x0c", "\r", " ", "\x00", "\x01", "\x0f", "\x1b", "\u000b", "\U0001f600", "\U0001f60b"):
+            if ch not in chars:
+                chars.append(ch)
+        return tuple(chars[:22])
     return tuple(chars[:7])
 
 
@@ -273,7 +312,8 @@ def check_pattern(pattern: str) -> Tuple[List[Violation], str]:
 
     matched = 0
     rejected = 0
-    for probe in gen_re.probes(_probe_alphabet(pattern), 3):
+    alphabet = _probe_alphabet(pattern)
+    for probe in gen_re.probes(alphabet, 3 if len(alphabet) <= 7 else 2):
         original_verdict = compiled_original.fullmatch(probe) is not None
         rendered_verdict = compiled_rendered.fullmatch(probe) is not None
         if original_verdict:
